@@ -179,7 +179,7 @@ def gen_nak(w, t, syn: Synth):
         form = t.weighted([7, 2, 1, 1, 1] if shape else [7, 2, 0, 0, 0], "form")
         if form == 0:
             a = pts[t.choose(len(pts), "a")]
-            ln = [s, 1, 2 * s, max(s - 1, 1), 3 * s + 1, 2 * s + 1][t.choose(6, "len")]
+            ln = [s, 1, 2 * s, max(s - 1, 1), 3 * s + 1, 2 * s + 1, max(prog, 1)][t.choose(7, "len")]  # last: everything sent so far
             b = a + ln
             if shape == 0:
                 # keep it inside what was sent
@@ -234,7 +234,9 @@ class Injector(Monitor):
 def nakpop(t) -> Ctx:
     f = {"mode": ACK, "shell": "history", "metadata_only": False, "poll_ms": [100, 50, 200, 250][t.choose(4, "poll")]}
     cfg = Cfg.draw(t, f)
-    if cfg.size // max(cfg.eff_seg, 1) > 30:
+    if cfg.size_sel == 10:
+        t.choose(3, "size")  # the scale entry is kept: several hundred segments (or more than 64 KiB) and NAKs for all of it
+    elif cfg.size // max(cfg.eff_seg, 1) > 30:
         cfg.size_sel = [6, 7, 8][t.choose(3, "size")]
         cfg.finish()
         if cfg.size // max(cfg.eff_seg, 1) > 30:
